@@ -43,7 +43,8 @@ META = {
                   "real code each bound cell is compared with the definition (encrypted cells must differ from the plain bytes and "
                   "decrypt to them) and the decoded parsed_rows must equal the inputs.",
     "level_note": "Trusted: TLC, harness/wire.py (ROWS / PREPARED bodies), the server modelled as returning the cell bytes it was "
-                  "sent. Only int and text columns with two values each (value codecs are Codec.tla's concern); AES itself is not "
+                  "sent. Only int, text and uuid columns with two or three values each (a negative int, the empty string, a 16-byte string "
+                  "and a uuid whose last bytes look like PKCS7 padding) (value codecs are Codec.tla's concern); AES itself is not "
                   "modelled (opaque bijection) - the real cipher runs on the code side. Pure-Python decoder only unless a compiled "
                   "build is supplied through VERIF_COMPILED_REPO (none exists by default). quick: columns x rows <= 4.",
     "design_ref": "5.6 C39",
@@ -52,7 +53,7 @@ META = {
 KEY = bytes(bytearray(range(32)))
 IV = bytes(bytearray(range(100, 116)))            # explicit IV of the writing policy
 IV2 = bytes(bytearray(range(200, 216)))           # explicit, different IV of a separate reading policy
-WITNESSES = ["Witness_NullInEncryptedColumn", "Witness_MixedLayoutTwoRows", "Witness_EmptyStringEncrypted",
+WITNESSES = ["Witness_BlockAlignedPaddingLikeTail", "Witness_NullInEncryptedColumn", "Witness_MixedLayoutTwoRows", "Witness_EmptyStringEncrypted",
              "Witness_SeparateReaderPolicy"]
 
 
@@ -175,7 +176,7 @@ def compare(env, st):
     obs = evaluate(env, case)
     exp_bound, exp_rows = expected(case, out)
     cols = case["cols"]
-    rep = {"case": case, "spec": {"bound": exp_bound, "rows": exp_rows}, "code": obs}
+    rep = {"case": case, "out": out, "spec": {"bound": exp_bound, "rows": [[repr(v) for v in row] for row in exp_rows]}, "code": obs}
     null_enc = any(cell["k"] == "null" and c["enc"] for row in case["rows"] for c, cell in zip(cols, row))
     if obs["bind_error"]:
         return ("bind failed: %s" % obs["bind_error"], "bind:%s:raised" % case["bind"], rep)
@@ -215,11 +216,20 @@ def compare(env, st):
     return None
 
 
+def padding_like(b):
+    """Encryption.tla PaddingLikeTail: block-aligned and ending in n bytes of value n."""
+    b = list(b)
+    return bool(b) and len(b) % 16 == 0 and 1 <= b[-1] <= 16 and b[-b[-1]:] == [b[-1]] * b[-1]
+
+
 def witness_flags(case):
     cols, rows = case["cols"], case["rows"]
     return {
         "Witness_NullInEncryptedColumn": any(c["enc"] and cell["k"] == "null" for r in rows for c, cell in zip(cols, r)),
         "Witness_MixedLayoutTwoRows": len(rows) == 2 and any(c["enc"] for c in cols) and any(not c["enc"] for c in cols),
+        "Witness_BlockAlignedPaddingLikeTail": any(
+            c["enc"] and cell["k"] == "val" and c["ty"] != "int" and padding_like(cell["v"]["s"])
+            for r in rows for c, cell in zip(cols, r)),
         "Witness_SeparateReaderPolicy": case.get("pol", "same") != "same" and len(rows) >= 1,
         "Witness_EmptyStringEncrypted": any(c["enc"] and c["ty"] == "text" and cell["k"] == "val" and len(cell["v"]["s"]) == 0
                                             for r in rows for c, cell in zip(cols, r)),
@@ -238,7 +248,7 @@ def run_compiled(ctx, path, vectors):
     """Decode the same ROWS bodies with the compiled parsers of the copy at `path` in a subprocess."""
     vec_file = os.path.join(ctx.scratch, "c39_vectors.json")
     with open(vec_file, "w") as f:
-        json.dump(vectors, f)
+        json.dump(vectors, f, default=lambda o: {"uuid": str(o)})
     env = dict(os.environ, VERIF_REPO=path)
     env.pop("CASS_DRIVER_NO_EXTENSIONS", None)
     p = subprocess.run([sys.executable, os.path.abspath(__file__), "--compiled", path, vec_file], env=env,
@@ -292,7 +302,7 @@ def run(ctx):
                 if by_signature[r[1]] == 1:
                     ctx.violation("%s | columns %s bind=%s meta=%s policies=%s pv=%d rows=%r" % (
                         r[0], [(c["ty"], "enc" if c["enc"] else "clear") for c in case["cols"]], case["bind"], case["meta"],
-                        case["pol"], case["pv"], r[2]["spec"]["rows"]), replay=r[2], signature=r[1])
+                        case["pol"], case["pv"], expected(case, st["out"])[1]), replay=r[2], signature=r[1])
     if not all(reached.values()):
         raise tlc.MachineryError("vacuity: not reached: %s" % sorted(k for k, v in reached.items() if not v))
     if not ctx.quick:
@@ -335,7 +345,7 @@ def run(ctx):
         raise tlc.MachineryError("binding self-test failed: %d of 2 corrupted expectations detected" % rejected)
     ctx.note("binding_selftest", {"corrupted_rejected": rejected, "meaningful": not by_signature})
     ctx.assumptions += ["the server returns for a cell the [bytes] it was sent (ROWS body assembled by harness/wire.py)",
-                        "int / text columns, two values each; the cipher is the real AES256 policy with a fixed key; writing and reading "
+                        "int / text / uuid columns, two or three values each incl. block-aligned plaintexts ending like PKCS7 padding; the cipher is the real AES256 policy with a fixed key; writing and reading "
                         "policy: same instance / separate instances with default random IVs (drawn from the seeded generator) / "
                         "separate instances with explicit different IVs - the IV travels with the ciphertext (PYTHON-1350)",
                         "compiled decoder only when VERIF_COMPILED_REPO is supplied"]
@@ -350,12 +360,7 @@ def replay(ctx, obj):
     print("input rows  :", obj["spec"]["rows"])
     print("bound       :", obs["bound"], obs["bind_error"] or "")
     print("decoded rows:", obs["decoded"], obs["decode_error"] or "")
-    spec = obj["spec"]
-    out = {"bound": spec["bound"],
-           "decoded": [[{"k": "null", "v": {"i": 0, "s": ()}} if v is None else
-                        {"k": "val", "v": ({"i": v, "s": ()} if isinstance(v, int) else {"i": 0, "s": tuple(ord(ch) for ch in v)})}
-                        for v in row] for row in spec["rows"]]}
-    r = compare(env, {"case": case, "out": out})
+    r = compare(env, {"case": case, "out": obj["out"]})
     if r:
         ctx.violation("replayed: " + r[0], replay=obj, signature=r[1])
 
@@ -371,7 +376,8 @@ def _compiled_main(path, vec_file):
         return
     with open(vec_file) as f:
         vectors = json.load(f)
-    names = {"int": "Int32Type", "text": "UTF8Type", "blob": "BytesType"}
+    names = {"int": "Int32Type", "text": "UTF8Type", "blob": "BytesType", "uuid": "UUIDType"}
+    import uuid
     import cassandra.cqltypes as cqt
     failures = {}
     handlers = {"ProtocolHandler": proto.ProtocolHandler, "LazyProtocolHandler": proto.LazyProtocolHandler}
@@ -383,6 +389,7 @@ def _compiled_main(path, vec_file):
             if enc:
                 policy.add_column(d, KEY, ty)
             md.append(proto.ColumnMetadata(B.KS, B.TABLE, B.col_name(i), getattr(cqt, names["blob" if enc else ty])))
+        v["rows"] = [[uuid.UUID(c["uuid"]) if isinstance(c, dict) else c for c in row] for row in v["rows"]]
         null_enc = any(enc and cell is None for row in v["rows"] for (ty, enc), cell in zip(v["cols"], row))
         for hname, base in handlers.items():
             h = type("verif-" + hname, (base,), {"column_encryption_policy": policy})
@@ -395,7 +402,7 @@ def _compiled_main(path, vec_file):
             if what:
                 sig = "%s:decode:%s%s" % (hname, "null-in-encrypted-column" if null_enc else "values",
                                           "" if v["pol"] == "same" else ":reader-policy=separate-instance-%s" % v["pol"])
-                failures.setdefault(sig, {"what": what, "vector": v})
+                failures.setdefault(sig, {"what": what, "vector": dict(v, rows=repr(v["rows"]))})
     print(json.dumps({"handlers": sorted(handlers), "vectors": len(vectors), "failures": failures}))
 
 
